@@ -95,6 +95,14 @@ def targeted_programs(dev):
                 {"op": "transfer", "src": 0, "sw": L(allw), "dst": 1, "dw": L(allw), "vols": {"k": "s", "x": 1}, "label": "Gr\u00f6\u00dfe: 5 \u00b5L", "wash": 1},
                 {"op": "save", "pre": "longer"}, {"op": "str"}, {"op": "exit", "pre": "shorter"}]
     progs.append(h)
+    # saving inside the block and again at its end, after the list was cleared, with only comments, into a directory with a
+    # non-ASCII name
+    h = _hdr("files/clear-and-comments", dev)
+    h["ops"] = [{"op": "enter"}, some[1], some[6], {"op": "save", "fname": "W\u00fcrze/run.gwl", "pre": "absent"}, {"op": "clear"}, {"op": "str"},
+                {"op": "save", "fname": "W\u00fcrze/run.gwl", "pre": "longer"},
+                E("comment", text="only a comment  "), E("comment", text="two\nlines "), {"op": "save", "fname": "W\u00fcrze/run.gwl"}, {"op": "str"},
+                {"op": "exit", "pre": "longer"}, {"op": "clear"}, {"op": "exit", "pre": "shorter"}, some[3], {"op": "exit"}]
+    progs.append(h)
     # a worklist without a path: leaving the block writes nothing
     h = _hdr("files/nopath", dev, file=False)
     h["ops"] = [{"op": "enter"}, some[1], {"op": "exit"}, {"op": "str"}, {"op": "save"}]
